@@ -313,6 +313,9 @@ func init() {
 			}
 		},
 		Gen: func(r *rand.Rand, tier string, idx int) Case {
+			if idx%300 == 17 && idx < 1000 {
+				return c16Large(r, idx)
+			}
 			return c16Case(r, c16GenKV(r, idx%2 == 0), idx%3)
 		},
 	})
